@@ -748,10 +748,10 @@ func (st *store) exec(line string) (out string) {
 			s2 = simdjson.NewSerializer()
 		}
 		s1.CompressMode(m1)
-		s2.CompressMode(m2)
 		blob := s1.Serialize(nil, *src)
 		lastBlob = blob
 		noteBlob(blob)
+		s2.CompressMode(m2) // after Serialize: s1 and s2 may be the same Serializer
 		d, err := s2.Deserialize(blob, nextSerde.dst)
 		nextSerde = serdeOpts{m1: simdjson.CompressDefault, m2: simdjson.CompressDefault}
 		if err != nil {
